@@ -11,6 +11,9 @@ behaviour:
     other               connect, Hello, RequestName(name + ".Other"), serve
     exit-before:<n>     exit(n) before connecting           (n < 0: die from signal -n)
     exit-after:<n>      connect, Hello, then exit(n) without asking for the name
+    gate-quick / gate-exit-before:<n> / gate-exit-after:<n>
+                        as above, but the decisive action (RequestName resp. exit) happens only once the file
+                        "<log file>.go" exists - the check decides when the start succeeds or fails
 
 The bus is found through DBUS_STARTER_ADDRESS.  Every event is one appended line in the log file:
     started <pid>
@@ -41,6 +44,15 @@ def main():
     except OSError:
         pass
     kind, _, arg = behaviour.partition(":")
+    gated = kind.startswith("gate-")
+    if gated:
+        kind = kind[5:]
+
+    def gate():
+        if gated:
+            while not os.path.exists(logpath + ".go"):
+                time.sleep(0.004)
+            log("gate-open")
 
     def die(n):
         n = int(n)
@@ -50,6 +62,7 @@ def main():
         os._exit(n)
 
     if kind == "exit-before":
+        gate()
         die(arg)
     if kind == "delay-connect":
         time.sleep(int(arg) / 1000.0)
@@ -66,10 +79,13 @@ def main():
     c = client.connect(path)
     log("connected %s" % c.unique.decode())
     if kind == "exit-after":
+        gate()
         die(arg)
     if kind == "delay":
         time.sleep(int(arg) / 1000.0)
     want = None
+    if kind == "quick":
+        gate()
     if kind in ("quick", "delay", "delay-connect"):
         want = name
     elif kind == "other":
